@@ -310,7 +310,7 @@ pub fn run(ctx: Ctx) -> i32 {
         return ctx.finish(json!({"states":1,"transitions":1,"traces_validated_against_impl":1,"samples":[case]}), &[], false);
     }
     let lists = if ctx.quick() {
-        universe_list(&[(2, 2, 2, 2, 6)])
+        universe_list(&[(2, 2, 2, 2, 6), (2, 2, 2, 3, 5), (3, 2, 2, 2, 5)])
     } else {
         universe_list(&[(2, 2, 2, 2, 6), (2, 3, 2, 2, 6), (3, 2, 2, 2, 6), (2, 2, 2, 3, 7)])
     };
